@@ -1402,6 +1402,63 @@ theorem cost_masked_parameter_dropped_witness :
       = [(some 0, [(-1000, 30), (35, 1000)]), (some 1, [(0, 1)])] := by
   decide
 
+/-! ### the mask as an object: spellings (`SVal`), the in-place rewrite of bare intervals, `results == mask` -/
+
+/-- The mechanism behind "a mask in the documented bare form `{k: (lo, hi)}` behaves like `{k: [(lo, hi)]}`": after
+`interval_overlap` has rewritten the caller's value in place (tools.py l.928-931, `SVal.norm`), the equality test of
+l.333 between a reported list of tuples and a value in either DOCUMENTED spelling looks at the interval content only. -/
+theorem cost_documented_spelling_compares_by_content (r : Ivs K) (s : SVal K) (h : s.documented = true) :
+    SVal.pyEq r s.norm = ivsEq r s.ivs := by
+  obtain ⟨v, o, i⟩ := s
+  cases v with
+  | bad => simp [SVal.documented] at h
+  | flat lo hi =>
+    simp only [SVal.documented, Bool.not_eq_true'] at h
+    subst h
+    simp [SVal.norm, SVal.pyEq, SVal.ivs]
+  | list l =>
+    simp only [SVal.documented, Bool.and_eq_true] at h
+    obtain ⟨h1, h2⟩ := h
+    subst h1; subst h2
+    simp [SVal.norm, SVal.pyEq, SVal.ivs]
+
+/-- "a history in which nothing meets the cost test reports nothing, whatever the mask": when the scan finds no bounds,
+the mask step returns `{}` for EVERY mask object - any keys, any intervals, any spelling of the values (every entry of
+`results` is then the mask's own object, tools.py l.946-947). -/
+theorem cost_nothing_found_reports_nothing (m : SDict K) : costMaskStepS ([] : BDict K) m = [] := by
+  unfold costMaskStepS
+  rw [if_pos]
+  unfold sdictEq
+  have hov : overlap ([] : BDict K) m.norm.bd = m.norm.bd := by
+    simp [overlap, bLookup]
+  rw [hov]
+  simp only [Bool.and_eq_true, beq_iff_eq, List.length_map, List.all_eq_true]
+  refine ⟨by simp [SDict.bd, SDict.norm], ?_⟩
+  intro kv hkv
+  have hkey : ∃ e ∈ m.norm, e.1 = kv.1 := by
+    simp only [SDict.bd, List.mem_map] at hkv
+    obtain ⟨a, ⟨b, hb, rfl⟩, rfl⟩ := hkv
+    refine ⟨b, hb, ?_⟩
+    split <;> rfl
+  obtain ⟨e, he, hek⟩ := hkey
+  have hsome : (m.norm.find? fun e => e.1 == kv.1).isSome = true := by
+    rw [List.find?_isSome]
+    exact ⟨e, he, by simp [hek]⟩
+  cases hf : (m.norm.find? fun e => e.1 == kv.1) with
+  | none => rw [hf] at hsome; cases hsome
+  | some e' => simp [bLookup]
+
+/-- F63, kernel-checked: parameter 0 is reported with the bounds `(0, 1)`; fed back as the bare tuple `(0, 1)` or as the
+list `[(0, 1)]` the detector reports nothing, fed back with the interval spelled as a LIST `[0, 1]` (accepted by the
+validation l.259-281, rewritten in place to `[[0, 1]]`) or as a TUPLE of intervals `((0, 1),)` it reports the same
+bounds again: `[(0, 1)] == [[0, 1]]` and `[(0, 1)] == ((0, 1),)` are False in Python. -/
+theorem cost_mask_other_container_reported_again_witness :
+    costMaskStepS [(some 0, [((0 : Int), 1)])] [(some 0, ⟨CVal.flat 0 1, false, false⟩)] = [] ∧
+    costMaskStepS [(some 0, [((0 : Int), 1)])] [(some 0, ⟨CVal.list [(0, 1)], true, true⟩)] = [] ∧
+    costMaskStepS [(some 0, [((0 : Int), 1)])] [(some 0, ⟨CVal.flat 0 1, true, false⟩)] = [(some 0, [(0, 1)])] ∧
+    costMaskStepS [(some 0, [((0 : Int), 1)])] [(some 0, ⟨CVal.list [(0, 1)], false, true⟩)] = [(some 0, [(0, 1)])] := by
+  decide
+
 end CostCollapse
 
 end MysticVerif.C11
